@@ -44,6 +44,9 @@ fn main() {
         .and_then(|s| s.parse().ok())
         .unwrap_or_else(|| std::thread::available_parallelism().map(|n| n.get()).unwrap_or(8).min(16));
     let mut replay = None;
+    let mut worker = None;
+    let mut worker_dir = None;
+    let mut inproc = false;
     let mut verif_dir = PathBuf::from(std::env::var("GDV_VERIF_DIR").unwrap_or_else(|_| "/verif".into()));
     let mut i = 2;
     while i < args.len() {
@@ -68,6 +71,17 @@ fn main() {
                 i += 1;
                 replay = Some(PathBuf::from(args.get(i).cloned().unwrap_or_else(|| usage())));
             }
+            "--worker" => {
+                i += 1;
+                let v = args.get(i).cloned().unwrap_or_else(|| usage());
+                let (a, b) = v.split_once('/').unwrap_or_else(|| usage());
+                worker = Some((a.parse().unwrap_or_else(|_| usage()), b.parse().unwrap_or_else(|_| usage())));
+            }
+            "--worker-dir" => {
+                i += 1;
+                worker_dir = Some(PathBuf::from(args.get(i).cloned().unwrap_or_else(|| usage())));
+            }
+            "--inproc" => inproc = true,
             "--verif-dir" => {
                 i += 1;
                 verif_dir = PathBuf::from(args.get(i).cloned().unwrap_or_else(|| usage()));
@@ -90,6 +104,13 @@ fn main() {
         }
     };
 
+    if worker.is_some() || inproc {
+        // a case may ask for absurd amounts of memory: fail fast instead of eating the machine
+        unsafe {
+            let lim = libc::rlimit { rlim_cur: 3 << 30, rlim_max: 3 << 30 };
+            libc::setrlimit(libc::RLIMIT_AS, &lim);
+        }
+    }
     let mut opts = Opts {
         tier,
         seed,
@@ -97,6 +118,9 @@ fn main() {
         verif_dir,
         replay,
         out,
+        worker,
+        worker_dir,
+        inproc,
     };
     let code = props::dispatch(&id, &mut opts);
     let _ = opts.out.flush();
